@@ -214,6 +214,17 @@ def rules(ctx):
         fn = ci.methods.get(op)
         if fn is None:
             continue
+        # the raw list operation of the same name receives the override's own arguments, in order
+        for r_ in _raw_ops(fn, op):
+            want = fn.params[1:]
+            got = [src(a_) for a_ in r_.args]
+            if fn.node.args.vararg or fn.node.args.kwarg or r_.keywords or any(isinstance(a_, ast.Starred) for a_ in r_.args):
+                continue
+            oka = got == want[:len(got)] and len(got) >= len([p_ for p_ in want]) - len(fn.node.args.defaults)
+            ctx.inst('R13.2', fn, r_, oka,
+                     "raw %s receives (%s)" % (op, ', '.join(got)) if oka else
+                     "super().%s is called with (%s) instead of the override's arguments (%s): the element is stored at / removed "
+                     "from another position, or the call fails" % (op, ', '.join(got), ', '.join(want)))
         selfn = _self(fn)
         g = cfg_of(fn.node)
         params = fn.params[1:]
